@@ -62,7 +62,7 @@ func (c StepCase) String() string {
 	return fmt.Sprintf("%s parked at pass %d of %s", c.Victim, c.Skip+1, c.Site)
 }
 
-var StepVictims = []string{"join", "leave", "switch", "delete", "lastleave", "create", "compadd-vs-delete", "compadd-vs-leave", "action-vs-delete", "action-vs-leave", "action-vs-action", "compupd-vs-unsub"}
+var StepVictims = []string{"join", "leave", "switch", "delete", "lastleave", "create", "compadd-vs-delete", "compadd-vs-leave", "action-vs-delete", "action-vs-leave", "action-vs-action", "compupd-vs-unsub", "compadd-vs-compadd"}
 
 // stepSiteOK: points on the victim's own path; points that every connection
 // or the frame worker pass all the time would park somebody else.
@@ -84,20 +84,21 @@ func stepSiteOK(s string) bool {
 }
 
 type stepEnv struct {
-	p        *sut.Proc
-	m, w, v  *scen.C
-	sid      string
-	oldSID   string // switch: the session the victim leaves (and thereby ends)
-	oldUUID  string
-	t, t2    uint32
-	e0, eDel uint32
-	vNP, vP  uint32 // victim's non-persistent and persistent entity
-	base     float64
-	v2       *scen.C // second victim
-	v2NP     uint32  // leave2: its non-persistent entity
-	target   string  // the session the second victim joins / leaves
-	o        *scen.C // attach victims: the owner of entity eO, which deletes it / leaves while the victim attaches to it
-	eO       uint32
+	p            *sut.Proc
+	m, w, v      *scen.C
+	sid          string
+	oldSID       string // switch: the session the victim leaves (and thereby ends)
+	oldUUID      string
+	t, t2        uint32
+	e0, eDel     uint32
+	vNP, vP      uint32 // victim's non-persistent and persistent entity
+	base         float64
+	mutatorAddOK bool    // compadd-vs-compadd: the mutator's add of the contested key was accepted
+	v2           *scen.C // second victim
+	v2NP         uint32  // leave2: its non-persistent entity
+	target       string  // the session the second victim joins / leaves
+	o            *scen.C // attach victims: the owner of entity eO, which deletes it / leaves while the victim attaches to it
+	eO           uint32
 	// set by interfere
 	eN     uint32
 	n      *scen.C // newcomer to sid (kept: second witness)
@@ -191,7 +192,7 @@ func stepSetup(p *sut.Proc, victim string) *stepEnv {
 		must(err)
 		_, err = o.Action(en.eO, "oa", 1_700_000_002, "o")
 		must(err)
-	case "action-vs-action":
+	case "action-vs-action", "compadd-vs-compadd":
 		_, _, err = v.Join(en.sid)
 		must(err)
 	case "compupd-vs-unsub":
@@ -286,6 +287,9 @@ func (en *stepEnv) fire(victim string) {
 		v.Close()
 	case "compadd-vs-delete", "compadd-vs-leave":
 		must(v.Send(&hagallpb.EntityComponentAddRequest{Type: d.TCompAddReq, Timestamp: d.NewTag(), RequestId: v.NextReqID(), EntityComponentTypeId: en.t2, EntityId: en.eO, Data: []byte("late")}))
+	case "compadd-vs-compadd":
+		// the same (type, entity) the mutator adds meanwhile: one of the two is a conflict
+		must(v.Send(&hagallpb.EntityComponentAddRequest{Type: d.TCompAddReq, Timestamp: d.NewTag(), RequestId: v.NextReqID(), EntityComponentTypeId: en.t2, EntityId: en.e0, Data: []byte("by-victim")}))
 	case "compupd-vs-unsub":
 		must(v.Send(&hagallpb.EntityComponentUpdate{Type: d.TCompUpdate, Timestamp: d.NewTag(), EntityComponentTypeId: en.t, EntityId: en.e0, Data: []byte("vu")}))
 	case "action-vs-action":
@@ -391,6 +395,13 @@ func (en *stepEnv) interfere(victim string) (err error) {
 	if victim == "join" {
 		en.x.Close()
 		departed(en.x, "the extra member")
+	}
+	if victim == "compadd-vs-compadd" {
+		var a *d.Event
+		if a, err = m.AddComp(en.t2, en.e0, "by-mutator"); err != nil {
+			return
+		}
+		en.mutatorAddOK = a != nil && a.Type == d.TCompAddResp
 	}
 	if victim == "compupd-vs-unsub" {
 		var a *d.Event
@@ -975,6 +986,25 @@ func (en *stepEnv) judgeSession(c StepCase, res *StepResult, snap *scen.Snapshot
 	}
 	if strings.HasSuffix(c.Victim, "-vs-leave") {
 		departedChecks("the owner that left while the victim was attaching to its entity", en.o, en.eO, 0)
+	}
+	if c.Victim == "compadd-vs-compadd" && !c.Abort {
+		victimOK := false
+		for _, e := range v.LogCopy() {
+			if e.Type == d.TCompAddResp {
+				victimOK = true
+			}
+		}
+		data, have := server.Comps[model.CompKey{Type: en.t2, Entity: en.e0}]
+		switch {
+		case victimOK && en.mutatorAddOK:
+			res.Findings = append(res.Findings, sf([]string{"C04", "C12"}, "component/two-adds-of-one-key-accepted", c, "two connections added a component for the same (type %d, entity %d) at the same time and both were answered with success (one must be a conflict); the server holds %q", en.t2, en.e0, data))
+		case !victimOK && !en.mutatorAddOK:
+			res.Findings = append(res.Findings, sf([]string{"C04", "C12"}, "component/no-add-of-the-key-accepted", c, "two connections added a component for the same free (type %d, entity %d) at the same time and both were refused", en.t2, en.e0))
+		case !have:
+			res.Findings = append(res.Findings, sf([]string{"C12"}, "component/accepted-add-not-stored", c, "an accepted add of (type %d, entity %d) is not handed to a probe", en.t2, en.e0))
+		case victimOK && string(data) != "by-victim" || en.mutatorAddOK && string(data) != "by-mutator":
+			res.Findings = append(res.Findings, sf([]string{"C12", "C04"}, "component/refused-add-stored", c, "the server holds %q for (type %d, entity %d) although that add was refused (victim accepted=%v, mutator accepted=%v)", data, en.t2, en.e0, victimOK, en.mutatorAddOK))
+		}
 	}
 	if c.Victim == "compupd-vs-unsub" {
 		answered := false
